@@ -39,6 +39,14 @@ class DefectFound(AnalysisError):
         self.file, self.function, self.line, self.construct, self.message = file, function, line, construct, message
 
 
+class SignGuard(DefectFound):
+    """A kernel function applies part of its formula under a test on the SIGN of a kernel parameter, and the value it
+    returns where the test fails is a different expression."""
+
+    rule_id = "K-SIGN-GUARD"
+    rule_desc = "a kernel whose formula is selected by the sign of a parameter (`if wavenumber_imag > 0:`) returns the same function on both sides (kernels are analytic in their parameters)"
+
+
 class TableWrong(DefectFound):
     """A connectivity table was read completely and is not a table of the required kind (a slot written twice, a slot
     of another element written, children missing): whatever rule needed the table reports it under TABLE-WELLFORMED."""
